@@ -3,6 +3,23 @@ import EaselModel.Dist.Num
     Each definition is the C function of the same name, as clang-14 parsed it, over an arbitrary `Num` carrier. -/
 set_option linter.unusedVariables false
 namespace EaselModel.Dist.Gen
+/-- the members of the C parameter structure `ESL_HYPEREXP` that the translated functions use -/
+structure ESL_HYPEREXP (α : Type) where
+  mu : α
+  K : Nat
+  q : List α
+  lambda : List α
+  wrk : List α
+
+/-- the members of the C parameter structure `ESL_MIXGEV` that the translated functions use -/
+structure ESL_MIXGEV (α : Type) where
+  K : Nat
+  q : List α
+  mu : List α
+  lambda : List α
+  alpha : List α
+  wrk : List α
+
 open EaselModel.Dist
 variable {α : Type} [Add α] [Sub α] [Mul α] [Div α] [Neg α] [OfScientific α] [LT α] [LE α]
   [DecidableLT α] [DecidableLE α] [Num α]
@@ -84,6 +101,26 @@ def esl_exp_Sample (u mu lambda : α) : α :=
   let x := (mu - ((1.0 / lambda) * (Num.log p)))
   x
 
+/-- `esl_exp_generic_pdf` (esl_exponential.c:192) -/
+def esl_exp_generic_pdf (x : α) (params : List α) : α :=
+  let p := params
+  (esl_exp_pdf x (p.getD 0 0.0) (p.getD 1 0.0))
+
+/-- `esl_exp_generic_cdf` (esl_exponential.c:203) -/
+def esl_exp_generic_cdf (x : α) (params : List α) : α :=
+  let p := params
+  (esl_exp_cdf x (p.getD 0 0.0) (p.getD 1 0.0))
+
+/-- `esl_exp_generic_surv` (esl_exponential.c:214) -/
+def esl_exp_generic_surv (x : α) (params : List α) : α :=
+  let p := params
+  (esl_exp_surv x (p.getD 0 0.0) (p.getD 1 0.0))
+
+/-- `esl_exp_generic_invcdf` (esl_exponential.c:225) -/
+def esl_exp_generic_invcdf (p : α) (params : List α) : α :=
+  let v := params
+  (esl_exp_invcdf p (v.getD 0 0.0) (v.getD 1 0.0))
+
 /-- `esl_gumbel_pdf` (esl_gumbel.c:54) -/
 def esl_gumbel_pdf (x mu lambda : α) : α :=
   let y := (lambda * (x - mu))
@@ -142,6 +179,26 @@ def esl_gumbel_invsurv (p mu lambda : α) : α :=
 def esl_gumbel_Sample (u mu lambda : α) : α :=
   let p := u
   (esl_gumbel_invcdf p mu lambda)
+
+/-- `esl_gumbel_generic_pdf` (esl_gumbel.c:220) -/
+def esl_gumbel_generic_pdf (p : α) (params : List α) : α :=
+  let v := params
+  (esl_gumbel_pdf p (v.getD 0 0.0) (v.getD 1 0.0))
+
+/-- `esl_gumbel_generic_cdf` (esl_gumbel.c:231) -/
+def esl_gumbel_generic_cdf (x : α) (params : List α) : α :=
+  let p := params
+  (esl_gumbel_cdf x (p.getD 0 0.0) (p.getD 1 0.0))
+
+/-- `esl_gumbel_generic_surv` (esl_gumbel.c:242) -/
+def esl_gumbel_generic_surv (p : α) (params : List α) : α :=
+  let v := params
+  (esl_gumbel_surv p (v.getD 0 0.0) (v.getD 1 0.0))
+
+/-- `esl_gumbel_generic_invcdf` (esl_gumbel.c:253) -/
+def esl_gumbel_generic_invcdf (p : α) (params : List α) : α :=
+  let v := params
+  (esl_gumbel_invcdf p (v.getD 0 0.0) (v.getD 1 0.0))
 
 /-- `esl_gev_pdf` (esl_gev.c:64) -/
 def esl_gev_pdf (x mu lambda alpha : α) : α :=
@@ -257,6 +314,26 @@ def esl_gev_Sample (u mu lambda alpha : α) : α :=
   let p := u
   (esl_gev_invcdf p mu lambda alpha)
 
+/-- `esl_gev_generic_pdf` (esl_gev.c:254) -/
+def esl_gev_generic_pdf (x : α) (params : List α) : α :=
+  let p := params
+  (esl_gev_pdf x (p.getD 0 0.0) (p.getD 1 0.0) (p.getD 2 0.0))
+
+/-- `esl_gev_generic_cdf` (esl_gev.c:265) -/
+def esl_gev_generic_cdf (x : α) (params : List α) : α :=
+  let p := params
+  (esl_gev_cdf x (p.getD 0 0.0) (p.getD 1 0.0) (p.getD 2 0.0))
+
+/-- `esl_gev_generic_surv` (esl_gev.c:276) -/
+def esl_gev_generic_surv (x : α) (params : List α) : α :=
+  let p := params
+  (esl_gev_surv x (p.getD 0 0.0) (p.getD 1 0.0) (p.getD 2 0.0))
+
+/-- `esl_gev_generic_invcdf` (esl_gev.c:287) -/
+def esl_gev_generic_invcdf (p : α) (params : List α) : α :=
+  let v := params
+  (esl_gev_invcdf p (v.getD 0 0.0) (v.getD 1 0.0) (v.getD 2 0.0))
+
 /-- `esl_wei_pdf` (esl_weibull.c:52) -/
 def esl_wei_pdf (x mu lambda tau : α) : α :=
   let y := (lambda * (x - mu))
@@ -355,6 +432,26 @@ def esl_wei_Sample (u mu lambda tau : α) : α :=
   let p := u
   (esl_wei_invcdf p mu lambda tau)
 
+/-- `esl_wei_generic_pdf` (esl_weibull.c:193) -/
+def esl_wei_generic_pdf (x : α) (params : List α) : α :=
+  let p := params
+  (esl_wei_pdf x (p.getD 0 0.0) (p.getD 1 0.0) (p.getD 2 0.0))
+
+/-- `esl_wei_generic_cdf` (esl_weibull.c:206) -/
+def esl_wei_generic_cdf (x : α) (params : List α) : α :=
+  let p := params
+  (esl_wei_cdf x (p.getD 0 0.0) (p.getD 1 0.0) (p.getD 2 0.0))
+
+/-- `esl_wei_generic_surv` (esl_weibull.c:219) -/
+def esl_wei_generic_surv (x : α) (params : List α) : α :=
+  let p := params
+  (esl_wei_surv x (p.getD 0 0.0) (p.getD 1 0.0) (p.getD 2 0.0))
+
+/-- `esl_wei_generic_invcdf` (esl_weibull.c:232) -/
+def esl_wei_generic_invcdf (p : α) (params : List α) : α :=
+  let v := params
+  (esl_wei_invcdf p (v.getD 0 0.0) (v.getD 1 0.0) (v.getD 2 0.0))
+
 /-- `esl_sxp_pdf` (esl_stretchexp.c:51) -/
 def esl_sxp_pdf (x mu lambda tau : α) : α :=
   let y := (lambda * (x - mu))
@@ -418,6 +515,78 @@ def esl_sxp_logsurv (x mu lambda tau : α) : α :=
   else
     let val := Num.incGammaQ (1.0 / tau) (Num.exp (tau * (Num.log y)))
     (Num.log val)
+
+/-- `esl_sxp_invcdf`: the code after loop 2 (line 186) -/
+def esl_sxp_invcdf_exit2 (fuel : Nat) (p mu lambda tau tol x1 x2 : α) : Option α :=
+  let xm := ((x1 + x2) / 2.0)
+  some xm
+
+/-- `esl_sxp_invcdf`: do-while loop 2 (line 186); `gas` counts the iterations still allowed, `none` = exhausted -/
+def esl_sxp_invcdf_loop2 (fuel : Nat) (p mu lambda tau tol x1 x2 : α) : Nat → Option α
+  | 0 => none
+  | gas + 1 =>
+    let xm := ((x1 + x2) / 2.0)
+    if ((xm ≤ x1) ∨ (x2 ≤ xm)) then
+      esl_sxp_invcdf_exit2 fuel p mu lambda tau tol x1 x2
+    else
+      let fm := (esl_sxp_cdf xm mu lambda tau)
+      if (p < fm) then
+        let x2 := xm
+        if (tol < ((x2 - x1) / ((x1 + x2) - (2.0 * mu)))) then
+          esl_sxp_invcdf_loop2 fuel p mu lambda tau tol x1 x2 gas
+        else
+          esl_sxp_invcdf_exit2 fuel p mu lambda tau tol x1 x2
+      else
+        if (fm < p) then
+          let x1 := xm
+          if (tol < ((x2 - x1) / ((x1 + x2) - (2.0 * mu)))) then
+            esl_sxp_invcdf_loop2 fuel p mu lambda tau tol x1 x2 gas
+          else
+            esl_sxp_invcdf_exit2 fuel p mu lambda tau tol x1 x2
+        else
+          some xm
+
+/-- `esl_sxp_invcdf`: the code after loop 1 (line 181) -/
+def esl_sxp_invcdf_exit1 (fuel : Nat) (p mu lambda tau tol x1 x2 : α) : Option α :=
+  esl_sxp_invcdf_loop2 fuel p mu lambda tau tol x1 x2 fuel
+
+/-- `esl_sxp_invcdf`: do-while loop 1 (line 181); `gas` counts the iterations still allowed, `none` = exhausted -/
+def esl_sxp_invcdf_loop1 (fuel : Nat) (p mu lambda tau tol x1 x2 : α) : Nat → Option α
+  | 0 => none
+  | gas + 1 =>
+    let x2 := (x2 + (2.0 * (x2 - x1)))
+    let f2 := (esl_sxp_cdf x2 mu lambda tau)
+    if (f2 < p) then
+      esl_sxp_invcdf_loop1 fuel p mu lambda tau tol x1 x2 gas
+    else
+      esl_sxp_invcdf_exit1 fuel p mu lambda tau tol x1 x2
+
+/-- `esl_sxp_invcdf` (esl_stretchexp.c:173) -/
+def esl_sxp_invcdf (fuel : Nat) (p mu lambda tau : α) : Option α :=
+  let tol := 1.0e-6
+  let x1 := mu
+  let x2 := (mu + 1.0)
+  esl_sxp_invcdf_loop1 fuel p mu lambda tau tol x1 x2 fuel
+
+/-- `esl_sxp_generic_pdf` (esl_stretchexp.c:215) -/
+def esl_sxp_generic_pdf (x : α) (params : List α) : α :=
+  let p := params
+  (esl_sxp_pdf x (p.getD 0 0.0) (p.getD 1 0.0) (p.getD 2 0.0))
+
+/-- `esl_sxp_generic_cdf` (esl_stretchexp.c:228) -/
+def esl_sxp_generic_cdf (x : α) (params : List α) : α :=
+  let p := params
+  (esl_sxp_cdf x (p.getD 0 0.0) (p.getD 1 0.0) (p.getD 2 0.0))
+
+/-- `esl_sxp_generic_surv` (esl_stretchexp.c:241) -/
+def esl_sxp_generic_surv (x : α) (params : List α) : α :=
+  let p := params
+  (esl_sxp_surv x (p.getD 0 0.0) (p.getD 1 0.0) (p.getD 2 0.0))
+
+/-- `esl_sxp_generic_invcdf` (esl_stretchexp.c:254) -/
+def esl_sxp_generic_invcdf (fuel : Nat) (p : α) (params : List α) : Option α :=
+  let v := params
+  esl_sxp_invcdf fuel p (v.getD 0 0.0) (v.getD 1 0.0) (v.getD 2 0.0)
 
 /-- `esl_gam_pdf` (esl_gamma.c:49) -/
 def esl_gam_pdf (x mu lambda tau : α) : α :=
@@ -503,6 +672,79 @@ def esl_gam_logsurv (x mu lambda tau : α) : α :=
     let val := Num.incGammaQ tau y
     (Num.log val)
 
+/-- `esl_gam_invcdf`: the code after loop 2 (line 203) -/
+def esl_gam_invcdf_exit2 (fuel : Nat) (p mu lambda tau tol x1 x2 : α) : Option α :=
+  let xm := ((x1 + x2) / 2.0)
+  some xm
+
+/-- `esl_gam_invcdf`: do-while loop 2 (line 203); `gas` counts the iterations still allowed, `none` = exhausted -/
+def esl_gam_invcdf_loop2 (fuel : Nat) (p mu lambda tau tol x1 x2 : α) : Nat → Option α
+  | 0 => none
+  | gas + 1 =>
+    let xm := ((x1 + x2) / 2.0)
+    if ((xm ≤ x1) ∨ (x2 ≤ xm)) then
+      esl_gam_invcdf_exit2 fuel p mu lambda tau tol x1 x2
+    else
+      let fm := (esl_gam_cdf xm mu lambda tau)
+      if (p < fm) then
+        let x2 := xm
+        if (tol < ((x2 - x1) / ((x1 + x2) - (2.0 * mu)))) then
+          esl_gam_invcdf_loop2 fuel p mu lambda tau tol x1 x2 gas
+        else
+          esl_gam_invcdf_exit2 fuel p mu lambda tau tol x1 x2
+      else
+        if (fm < p) then
+          let x1 := xm
+          if (tol < ((x2 - x1) / ((x1 + x2) - (2.0 * mu)))) then
+            esl_gam_invcdf_loop2 fuel p mu lambda tau tol x1 x2 gas
+          else
+            esl_gam_invcdf_exit2 fuel p mu lambda tau tol x1 x2
+        else
+          some xm
+
+/-- `esl_gam_invcdf`: the code after loop 1 (line 197) -/
+def esl_gam_invcdf_exit1 (fuel : Nat) (p mu lambda tau tol x1 x2 : α) : Option α :=
+  let x2 := (x2 + mu)
+  esl_gam_invcdf_loop2 fuel p mu lambda tau tol x1 x2 fuel
+
+/-- `esl_gam_invcdf`: do-while loop 1 (line 197); `gas` counts the iterations still allowed, `none` = exhausted -/
+def esl_gam_invcdf_loop1 (fuel : Nat) (p mu lambda tau tol x1 x2 : α) : Nat → Option α
+  | 0 => none
+  | gas + 1 =>
+    let x2 := (x2 * 2.0)
+    let f2 := (esl_gam_cdf (mu + x2) mu lambda tau)
+    if (f2 < p) then
+      esl_gam_invcdf_loop1 fuel p mu lambda tau tol x1 x2 gas
+    else
+      esl_gam_invcdf_exit1 fuel p mu lambda tau tol x1 x2
+
+/-- `esl_gam_invcdf` (esl_gamma.c:189) -/
+def esl_gam_invcdf (fuel : Nat) (p mu lambda tau : α) : Option α :=
+  let tol := 1.0e-6
+  let x1 := mu
+  let x2 := (tau / lambda)
+  esl_gam_invcdf_loop1 fuel p mu lambda tau tol x1 x2 fuel
+
+/-- `esl_gam_generic_pdf` (esl_gamma.c:232) -/
+def esl_gam_generic_pdf (x : α) (params : List α) : α :=
+  let p := params
+  (esl_gam_pdf x (p.getD 0 0.0) (p.getD 1 0.0) (p.getD 2 0.0))
+
+/-- `esl_gam_generic_cdf` (esl_gamma.c:246) -/
+def esl_gam_generic_cdf (x : α) (params : List α) : α :=
+  let p := params
+  (esl_gam_cdf x (p.getD 0 0.0) (p.getD 1 0.0) (p.getD 2 0.0))
+
+/-- `esl_gam_generic_surv` (esl_gamma.c:260) -/
+def esl_gam_generic_surv (x : α) (params : List α) : α :=
+  let p := params
+  (esl_gam_surv x (p.getD 0 0.0) (p.getD 1 0.0) (p.getD 2 0.0))
+
+/-- `esl_gam_generic_invcdf` (esl_gamma.c:274) -/
+def esl_gam_generic_invcdf (fuel : Nat) (x : α) (params : List α) : Option α :=
+  let p := params
+  esl_gam_invcdf fuel x (p.getD 0 0.0) (p.getD 1 0.0) (p.getD 2 0.0)
+
 /-- `esl_normal_pdf` (esl_normal.c:53) -/
 def esl_normal_pdf (x mu sigma : α) : α :=
   let z := ((x - mu) / sigma)
@@ -523,6 +765,21 @@ def esl_normal_surv (x mu sigma : α) : α :=
   let z := ((x - mu) / sigma)
   (0.5 * (Num.erfc (z / (Num.sqrt 2.0))))
 
+/-- `esl_normal_generic_pdf` (esl_normal.c:130) -/
+def esl_normal_generic_pdf (x : α) (params : List α) : α :=
+  let v := params
+  (esl_normal_pdf x (v.getD 0 0.0) (v.getD 1 0.0))
+
+/-- `esl_normal_generic_cdf` (esl_normal.c:137) -/
+def esl_normal_generic_cdf (x : α) (params : List α) : α :=
+  let v := params
+  (esl_normal_cdf x (v.getD 0 0.0) (v.getD 1 0.0))
+
+/-- `esl_normal_generic_surv` (esl_normal.c:144) -/
+def esl_normal_generic_surv (x : α) (params : List α) : α :=
+  let v := params
+  (esl_normal_surv x (v.getD 0 0.0) (v.getD 1 0.0))
+
 /-- `esl_lognormal_pdf` (esl_lognormal.c:20) -/
 def esl_lognormal_pdf (x mu sigma : α) : α :=
   if (Num.eqb x (0.0) = true) then
@@ -538,6 +795,330 @@ def esl_lognormal_logpdf (x mu sigma : α) : α :=
   else
     let z := (((Num.log x) - mu) / sigma)
     (((-(Num.log (x * sigma))) - (0.5 * (Num.log (2.0 * 3.14159265358979323846264338328)))) - ((0.5 * z) * z))
+
+/-- `esl_vec_DMax` (esl_vectorops.c:289) -/
+def esl_vec_DMax (vec : List α) (n : Nat) : α :=
+  let best := (vec.getD 0 0.0)
+  let best := (List.range' 1 (n - 1)).foldl (fun best i =>
+      if (best < (vec.getD i 0.0)) then
+        let best := (vec.getD i 0.0)
+        best
+      else
+        best) best
+  best
+
+/-- `esl_vec_DMin` (esl_vectorops.c:338) -/
+def esl_vec_DMin (vec : List α) (n : Nat) : α :=
+  let best := (vec.getD 0 0.0)
+  let best := (List.range' 1 (n - 1)).foldl (fun best i =>
+      if ((vec.getD i 0.0) < best) then
+        let best := (vec.getD i 0.0)
+        best
+      else
+        best) best
+  best
+
+/-- `esl_vec_DLogSum` (esl_vectorops.c:1318) -/
+def esl_vec_DLogSum (vec : List α) (n : Nat) : α :=
+  let max := (esl_vec_DMax vec n)
+  if (Num.eqb max (Num.inf) = true) then
+    Num.inf
+  else
+    let sum := 0.0
+    let sum := (List.range n).foldl (fun sum i =>
+        if ((max - 500.0) < (vec.getD i 0.0)) then
+          let sum := (sum + (Num.exp ((vec.getD i 0.0) - max)))
+          sum
+        else
+          sum) sum
+    let sum := ((Num.log sum) + max)
+    sum
+
+/-- `esl_hxp_pdf` (esl_hyperexp.c:259) -/
+def esl_hxp_pdf (x : α) (h : ESL_HYPEREXP α) : α :=
+  let pdf := 0.0
+  if (x < h.mu) then
+    0.0
+  else
+    let pdf := (List.range h.K).foldl (fun pdf k =>
+        let pdf := (pdf + ((h.q.getD k 0.0) * (esl_exp_pdf x h.mu (h.lambda.getD k 0.0))))
+        pdf) pdf
+    pdf
+
+/-- `esl_hxp_logpdf` (esl_hyperexp.c:278) -/
+def esl_hxp_logpdf (x : α) (h : ESL_HYPEREXP α) : α :=
+  if (x < h.mu) then
+    (-Num.inf)
+  else
+    let h := (List.range h.K).foldl (fun h k =>
+        if (Num.eqb (h.q.getD k 0.0) (0.0) = true) then
+          let h := { h with wrk := h.wrk.set k (-Num.inf) }
+          h
+        else
+          let h := { h with wrk := h.wrk.set k ((Num.log (h.q.getD k 0.0)) + (esl_exp_logpdf x h.mu (h.lambda.getD k 0.0))) }
+          h) h
+    let z := (esl_vec_DLogSum h.wrk h.K)
+    z
+
+/-- `esl_hxp_cdf` (esl_hyperexp.c:301) -/
+def esl_hxp_cdf (x : α) (h : ESL_HYPEREXP α) : α :=
+  let cdf := 0.0
+  if (x < h.mu) then
+    0.0
+  else
+    let cdf := (List.range h.K).foldl (fun cdf k =>
+        let cdf := (cdf + ((h.q.getD k 0.0) * (esl_exp_cdf x h.mu (h.lambda.getD k 0.0))))
+        cdf) cdf
+    cdf
+
+/-- `esl_hxp_logcdf` (esl_hyperexp.c:319) -/
+def esl_hxp_logcdf (x : α) (h : ESL_HYPEREXP α) : α :=
+  if (x < h.mu) then
+    (-Num.inf)
+  else
+    let h := (List.range h.K).foldl (fun h k =>
+        if (Num.eqb (h.q.getD k 0.0) (0.0) = true) then
+          let h := { h with wrk := h.wrk.set k (-Num.inf) }
+          h
+        else
+          let h := { h with wrk := h.wrk.set k ((Num.log (h.q.getD k 0.0)) + (esl_exp_logcdf x h.mu (h.lambda.getD k 0.0))) }
+          h) h
+    (esl_vec_DLogSum h.wrk h.K)
+
+/-- `esl_hxp_surv` (esl_hyperexp.c:341) -/
+def esl_hxp_surv (x : α) (h : ESL_HYPEREXP α) : α :=
+  let srv := 0.0
+  if (x < h.mu) then
+    1.0
+  else
+    let srv := (List.range h.K).foldl (fun srv k =>
+        let srv := (srv + ((h.q.getD k 0.0) * (esl_exp_surv x h.mu (h.lambda.getD k 0.0))))
+        srv) srv
+    srv
+
+/-- `esl_hxp_logsurv` (esl_hyperexp.c:360) -/
+def esl_hxp_logsurv (x : α) (h : ESL_HYPEREXP α) : α :=
+  if (x < h.mu) then
+    0.0
+  else
+    let h := (List.range h.K).foldl (fun h k =>
+        if (Num.eqb (h.q.getD k 0.0) (0.0) = true) then
+          let h := { h with wrk := h.wrk.set k (-Num.inf) }
+          h
+        else
+          let h := { h with wrk := h.wrk.set k ((Num.log (h.q.getD k 0.0)) + (esl_exp_logsurv x h.mu (h.lambda.getD k 0.0))) }
+          h) h
+    (esl_vec_DLogSum h.wrk h.K)
+
+/-- `esl_hxp_invcdf`: the code after loop 2 (line 401) -/
+def esl_hxp_invcdf_exit2 (fuel : Nat) (p : α) (h : ESL_HYPEREXP α) (tol x1 x2 : α) : Option α :=
+  let xm := ((x1 + x2) / 2.0)
+  some xm
+
+/-- `esl_hxp_invcdf`: do-while loop 2 (line 401); `gas` counts the iterations still allowed, `none` = exhausted -/
+def esl_hxp_invcdf_loop2 (fuel : Nat) (p : α) (h : ESL_HYPEREXP α) (tol x1 x2 : α) : Nat → Option α
+  | 0 => none
+  | gas + 1 =>
+    let xm := ((x1 + x2) / 2.0)
+    if ((xm ≤ x1) ∨ (x2 ≤ xm)) then
+      esl_hxp_invcdf_exit2 fuel p h tol x1 x2
+    else
+      let fm := (esl_hxp_cdf xm h)
+      if (p < fm) then
+        let x2 := xm
+        if (tol < ((x2 - x1) / ((x1 + x2) - (2.0 * h.mu)))) then
+          esl_hxp_invcdf_loop2 fuel p h tol x1 x2 gas
+        else
+          esl_hxp_invcdf_exit2 fuel p h tol x1 x2
+      else
+        if (fm < p) then
+          let x1 := xm
+          if (tol < ((x2 - x1) / ((x1 + x2) - (2.0 * h.mu)))) then
+            esl_hxp_invcdf_loop2 fuel p h tol x1 x2 gas
+          else
+            esl_hxp_invcdf_exit2 fuel p h tol x1 x2
+        else
+          some xm
+
+/-- `esl_hxp_invcdf`: the code after loop 1 (line 396) -/
+def esl_hxp_invcdf_exit1 (fuel : Nat) (p : α) (h : ESL_HYPEREXP α) (tol x1 x2 : α) : Option α :=
+  esl_hxp_invcdf_loop2 fuel p h tol x1 x2 fuel
+
+/-- `esl_hxp_invcdf`: do-while loop 1 (line 396); `gas` counts the iterations still allowed, `none` = exhausted -/
+def esl_hxp_invcdf_loop1 (fuel : Nat) (p : α) (h : ESL_HYPEREXP α) (tol x1 x2 : α) : Nat → Option α
+  | 0 => none
+  | gas + 1 =>
+    let x2 := (x2 + (2.0 * (x2 - x1)))
+    let f2 := (esl_hxp_cdf x2 h)
+    if (f2 < p) then
+      esl_hxp_invcdf_loop1 fuel p h tol x1 x2 gas
+    else
+      esl_hxp_invcdf_exit1 fuel p h tol x1 x2
+
+/-- `esl_hxp_invcdf` (esl_hyperexp.c:388) -/
+def esl_hxp_invcdf (fuel : Nat) (p : α) (h : ESL_HYPEREXP α) : Option α :=
+  let tol := 1.0e-6
+  let x1 := h.mu
+  let x2 := (h.mu + 1.0)
+  esl_hxp_invcdf_loop1 fuel p h tol x1 x2 fuel
+
+/-- `esl_hxp_generic_pdf` (esl_hyperexp.c:429) -/
+def esl_hxp_generic_pdf (x : α) (params : ESL_HYPEREXP α) : α :=
+  let h := params
+  (esl_hxp_pdf x h)
+
+/-- `esl_hxp_generic_cdf` (esl_hyperexp.c:440) -/
+def esl_hxp_generic_cdf (x : α) (params : ESL_HYPEREXP α) : α :=
+  let h := params
+  (esl_hxp_cdf x h)
+
+/-- `esl_hxp_generic_surv` (esl_hyperexp.c:451) -/
+def esl_hxp_generic_surv (x : α) (params : ESL_HYPEREXP α) : α :=
+  let h := params
+  (esl_hxp_surv x h)
+
+/-- `esl_hxp_generic_invcdf` (esl_hyperexp.c:462) -/
+def esl_hxp_generic_invcdf (fuel : Nat) (p : α) (params : ESL_HYPEREXP α) : Option α :=
+  let h := params
+  esl_hxp_invcdf fuel p h
+
+/-- `esl_mixgev_pdf` (esl_mixgev.c:190) -/
+def esl_mixgev_pdf (x : α) (mg : ESL_MIXGEV α) : α :=
+  let pdf := 0.0
+  let pdf := (List.range mg.K).foldl (fun pdf k =>
+      let pdf := (pdf + ((mg.q.getD k 0.0) * (esl_gev_pdf x (mg.mu.getD k 0.0) (mg.lambda.getD k 0.0) (mg.alpha.getD k 0.0))))
+      pdf) pdf
+  pdf
+
+/-- `esl_mixgev_logpdf` (esl_mixgev.c:206) -/
+def esl_mixgev_logpdf (x : α) (mg : ESL_MIXGEV α) : α :=
+  let mg := (List.range mg.K).foldl (fun mg k =>
+      if (Num.eqb (mg.q.getD k 0.0) (0.0) = true) then
+        let mg := { mg with wrk := mg.wrk.set k (-Num.inf) }
+        mg
+      else
+        let mg := { mg with wrk := mg.wrk.set k ((Num.log (mg.q.getD k 0.0)) + (esl_gev_logpdf x (mg.mu.getD k 0.0) (mg.lambda.getD k 0.0) (mg.alpha.getD k 0.0))) }
+        mg) mg
+  (esl_vec_DLogSum mg.wrk mg.K)
+
+/-- `esl_mixgev_cdf` (esl_mixgev.c:225) -/
+def esl_mixgev_cdf (x : α) (mg : ESL_MIXGEV α) : α :=
+  let cdf := 0.0
+  let cdf := (List.range mg.K).foldl (fun cdf k =>
+      let cdf := (cdf + ((mg.q.getD k 0.0) * (esl_gev_cdf x (mg.mu.getD k 0.0) (mg.lambda.getD k 0.0) (mg.alpha.getD k 0.0))))
+      cdf) cdf
+  cdf
+
+/-- `esl_mixgev_logcdf` (esl_mixgev.c:241) -/
+def esl_mixgev_logcdf (x : α) (mg : ESL_MIXGEV α) : α :=
+  let mg := (List.range mg.K).foldl (fun mg k =>
+      if (Num.eqb (mg.q.getD k 0.0) (0.0) = true) then
+        let mg := { mg with wrk := mg.wrk.set k (-Num.inf) }
+        mg
+      else
+        let mg := { mg with wrk := mg.wrk.set k ((Num.log (mg.q.getD k 0.0)) + (esl_gev_logcdf x (mg.mu.getD k 0.0) (mg.lambda.getD k 0.0) (mg.alpha.getD k 0.0))) }
+        mg) mg
+  (esl_vec_DLogSum mg.wrk mg.K)
+
+/-- `esl_mixgev_surv` (esl_mixgev.c:261) -/
+def esl_mixgev_surv (x : α) (mg : ESL_MIXGEV α) : α :=
+  let srv := 0.0
+  let srv := (List.range mg.K).foldl (fun srv k =>
+      let srv := (srv + ((mg.q.getD k 0.0) * (esl_gev_surv x (mg.mu.getD k 0.0) (mg.lambda.getD k 0.0) (mg.alpha.getD k 0.0))))
+      srv) srv
+  srv
+
+/-- `esl_mixgev_logsurv` (esl_mixgev.c:277) -/
+def esl_mixgev_logsurv (x : α) (mg : ESL_MIXGEV α) : α :=
+  let mg := (List.range mg.K).foldl (fun mg k =>
+      let mg := { mg with wrk := mg.wrk.set k (Num.log (mg.q.getD k 0.0)) }
+      let mg := { mg with wrk := mg.wrk.set k ((mg.wrk.getD k 0.0) + (esl_gev_logsurv x (mg.mu.getD k 0.0) (mg.lambda.getD k 0.0) (mg.alpha.getD k 0.0))) }
+      mg) mg
+  (esl_vec_DLogSum mg.wrk mg.K)
+
+/-- `esl_mixgev_invcdf`: the code after loop 3 (line 319) -/
+def esl_mixgev_invcdf_exit3 (fuel : Nat) (p : α) (mg : ESL_MIXGEV α) (tol x2 x1 : α) : Option α :=
+  let xm := ((x1 + x2) / 2.0)
+  some xm
+
+/-- `esl_mixgev_invcdf`: do-while loop 3 (line 319); `gas` counts the iterations still allowed, `none` = exhausted -/
+def esl_mixgev_invcdf_loop3 (fuel : Nat) (p : α) (mg : ESL_MIXGEV α) (tol x2 x1 : α) : Nat → Option α
+  | 0 => none
+  | gas + 1 =>
+    let xm := ((x1 + x2) / 2.0)
+    let fm := (esl_mixgev_cdf xm mg)
+    if (p < fm) then
+      let x2 := xm
+      if ((tol * (((Num.fabs x1) + (Num.fabs x2)) + 1.0e-9)) < (x2 - x1)) then
+        esl_mixgev_invcdf_loop3 fuel p mg tol x2 x1 gas
+      else
+        esl_mixgev_invcdf_exit3 fuel p mg tol x2 x1
+    else
+      if (fm < p) then
+        let x1 := xm
+        if ((tol * (((Num.fabs x1) + (Num.fabs x2)) + 1.0e-9)) < (x2 - x1)) then
+          esl_mixgev_invcdf_loop3 fuel p mg tol x2 x1 gas
+        else
+          esl_mixgev_invcdf_exit3 fuel p mg tol x2 x1
+      else
+        some xm
+
+/-- `esl_mixgev_invcdf`: the code after loop 2 (line 314) -/
+def esl_mixgev_invcdf_exit2 (fuel : Nat) (p : α) (mg : ESL_MIXGEV α) (tol x2 x1 : α) : Option α :=
+  esl_mixgev_invcdf_loop3 fuel p mg tol x2 x1 fuel
+
+/-- `esl_mixgev_invcdf`: do-while loop 2 (line 314); `gas` counts the iterations still allowed, `none` = exhausted -/
+def esl_mixgev_invcdf_loop2 (fuel : Nat) (p : α) (mg : ESL_MIXGEV α) (tol x2 x1 : α) : Nat → Option α
+  | 0 => none
+  | gas + 1 =>
+    let x2 := (x2 + (2.0 * (x2 - x1)))
+    let f2 := (esl_mixgev_cdf x2 mg)
+    if (f2 < p) then
+      esl_mixgev_invcdf_loop2 fuel p mg tol x2 x1 gas
+    else
+      esl_mixgev_invcdf_exit2 fuel p mg tol x2 x1
+
+/-- `esl_mixgev_invcdf`: the code after loop 1 (line 310) -/
+def esl_mixgev_invcdf_exit1 (fuel : Nat) (p : α) (mg : ESL_MIXGEV α) (tol x2 x1 : α) : Option α :=
+  esl_mixgev_invcdf_loop2 fuel p mg tol x2 x1 fuel
+
+/-- `esl_mixgev_invcdf`: do-while loop 1 (line 310); `gas` counts the iterations still allowed, `none` = exhausted -/
+def esl_mixgev_invcdf_loop1 (fuel : Nat) (p : α) (mg : ESL_MIXGEV α) (tol x2 x1 : α) : Nat → Option α
+  | 0 => none
+  | gas + 1 =>
+    let x1 := (x1 - (2.0 * (x2 - x1)))
+    let f1 := (esl_mixgev_cdf x1 mg)
+    if (p < f1) then
+      esl_mixgev_invcdf_loop1 fuel p mg tol x2 x1 gas
+    else
+      esl_mixgev_invcdf_exit1 fuel p mg tol x2 x1
+
+/-- `esl_mixgev_invcdf` (esl_mixgev.c:302) -/
+def esl_mixgev_invcdf (fuel : Nat) (p : α) (mg : ESL_MIXGEV α) : Option α :=
+  let tol := 1.0e-6
+  let x2 := (esl_vec_DMin mg.mu mg.K)
+  let x1 := (x2 - 1.0)
+  esl_mixgev_invcdf_loop1 fuel p mg tol x2 x1 fuel
+
+/-- `esl_mixgev_generic_pdf` (esl_mixgev.c:346) -/
+def esl_mixgev_generic_pdf (x : α) (params : ESL_MIXGEV α) : α :=
+  let mg := params
+  (esl_mixgev_pdf x mg)
+
+/-- `esl_mixgev_generic_cdf` (esl_mixgev.c:358) -/
+def esl_mixgev_generic_cdf (x : α) (params : ESL_MIXGEV α) : α :=
+  let mg := params
+  (esl_mixgev_cdf x mg)
+
+/-- `esl_mixgev_generic_surv` (esl_mixgev.c:370) -/
+def esl_mixgev_generic_surv (x : α) (params : ESL_MIXGEV α) : α :=
+  let mg := params
+  (esl_mixgev_surv x mg)
+
+/-- `esl_mixgev_generic_invcdf` (esl_mixgev.c:382) -/
+def esl_mixgev_generic_invcdf (fuel : Nat) (p : α) (params : ESL_MIXGEV α) : Option α :=
+  let mg := params
+  esl_mixgev_invcdf fuel p mg
 
 /-- name → translated function (a generator parameter is the leading deviate `u`) -/
 def dispatch (name : String) (a : List α) : Option α :=
@@ -594,6 +1175,41 @@ def dispatch (name : String) (a : List α) : Option α :=
   | "esl_normal_surv", [x0, x1, x2] => some (esl_normal_surv x0 x1 x2)
   | "esl_lognormal_pdf", [x0, x1, x2] => some (esl_lognormal_pdf x0 x1 x2)
   | "esl_lognormal_logpdf", [x0, x1, x2] => some (esl_lognormal_logpdf x0 x1 x2)
+  | _, _ => none
+
+/-- name → translated loop-containing function (`some none` = fuel exhausted) and the generic-API wrappers
+    `f(x, void *params)` over a parameter vector -/
+def dispatchP (fuel : Nat) (name : String) (a : List α) : Option (Option α) :=
+  match name, a with
+  | "esl_exp_generic_pdf", x0 :: ps => some (some (esl_exp_generic_pdf x0 ps))
+  | "esl_exp_generic_cdf", x0 :: ps => some (some (esl_exp_generic_cdf x0 ps))
+  | "esl_exp_generic_surv", x0 :: ps => some (some (esl_exp_generic_surv x0 ps))
+  | "esl_exp_generic_invcdf", x0 :: ps => some (some (esl_exp_generic_invcdf x0 ps))
+  | "esl_gumbel_generic_pdf", x0 :: ps => some (some (esl_gumbel_generic_pdf x0 ps))
+  | "esl_gumbel_generic_cdf", x0 :: ps => some (some (esl_gumbel_generic_cdf x0 ps))
+  | "esl_gumbel_generic_surv", x0 :: ps => some (some (esl_gumbel_generic_surv x0 ps))
+  | "esl_gumbel_generic_invcdf", x0 :: ps => some (some (esl_gumbel_generic_invcdf x0 ps))
+  | "esl_gev_generic_pdf", x0 :: ps => some (some (esl_gev_generic_pdf x0 ps))
+  | "esl_gev_generic_cdf", x0 :: ps => some (some (esl_gev_generic_cdf x0 ps))
+  | "esl_gev_generic_surv", x0 :: ps => some (some (esl_gev_generic_surv x0 ps))
+  | "esl_gev_generic_invcdf", x0 :: ps => some (some (esl_gev_generic_invcdf x0 ps))
+  | "esl_wei_generic_pdf", x0 :: ps => some (some (esl_wei_generic_pdf x0 ps))
+  | "esl_wei_generic_cdf", x0 :: ps => some (some (esl_wei_generic_cdf x0 ps))
+  | "esl_wei_generic_surv", x0 :: ps => some (some (esl_wei_generic_surv x0 ps))
+  | "esl_wei_generic_invcdf", x0 :: ps => some (some (esl_wei_generic_invcdf x0 ps))
+  | "esl_sxp_invcdf", [x0, x1, x2, x3] => some (esl_sxp_invcdf fuel x0 x1 x2 x3)
+  | "esl_sxp_generic_pdf", x0 :: ps => some (some (esl_sxp_generic_pdf x0 ps))
+  | "esl_sxp_generic_cdf", x0 :: ps => some (some (esl_sxp_generic_cdf x0 ps))
+  | "esl_sxp_generic_surv", x0 :: ps => some (some (esl_sxp_generic_surv x0 ps))
+  | "esl_sxp_generic_invcdf", x0 :: ps => some (esl_sxp_generic_invcdf fuel x0 ps)
+  | "esl_gam_invcdf", [x0, x1, x2, x3] => some (esl_gam_invcdf fuel x0 x1 x2 x3)
+  | "esl_gam_generic_pdf", x0 :: ps => some (some (esl_gam_generic_pdf x0 ps))
+  | "esl_gam_generic_cdf", x0 :: ps => some (some (esl_gam_generic_cdf x0 ps))
+  | "esl_gam_generic_surv", x0 :: ps => some (some (esl_gam_generic_surv x0 ps))
+  | "esl_gam_generic_invcdf", x0 :: ps => some (esl_gam_generic_invcdf fuel x0 ps)
+  | "esl_normal_generic_pdf", x0 :: ps => some (some (esl_normal_generic_pdf x0 ps))
+  | "esl_normal_generic_cdf", x0 :: ps => some (some (esl_normal_generic_cdf x0 ps))
+  | "esl_normal_generic_surv", x0 :: ps => some (some (esl_normal_generic_surv x0 ps))
   | _, _ => none
 
 end EaselModel.Dist.Gen
